@@ -7,7 +7,7 @@
 (* evaluated non-halting: each failure adds a record to viol, so one run   *)
 (* reports every violation of every property in every concatenated trace.  *)
 (***************************************************************************)
-EXTENDS ResObserver, CacheTrace, Json, SequencesExt
+EXTENDS ResObserver, CacheTrace, SubQueueTrace, Json, SequencesExt
 
 Trace == ndJsonDeserialize("trace.ndjson")
 
@@ -27,7 +27,7 @@ NewClient(lg, v111, http) ==
 InitO(tr) ==
     [tr |-> tr, conns |-> <<>>, ann |-> <<>>, norm |-> <<>>, keyn |-> <<>>,
      mqsubs |-> {}, mqpend |-> <<>>, handed |-> <<>>, window |-> {},
-     refetch |-> <<>>, ctrig |-> <<>>, resets |-> <<>>, thr |-> <<>>, stop |-> [l |-> 0, cause |-> "", open |-> {}], down |-> FALSE, hadStop |-> FALSE, final |-> FALSE, resetObl |-> {}, keyq |-> <<>>, qev |-> <<>>, ce |-> <<>>]
+     refetch |-> <<>>, ctrig |-> <<>>, resets |-> <<>>, thr |-> <<>>, stop |-> [l |-> 0, cause |-> "", open |-> {}], down |-> FALSE, hadStop |-> FALSE, final |-> FALSE, resetObl |-> {}, keyq |-> <<>>, qev |-> <<>>, ce |-> <<>>, sq |-> <<>>]
 
 Short(s) == IF Len(s) > 48 THEN SubSeq(s, 1, 24) \o "...(" \o ToString(Len(s)) \o " characters)" ELSE s
 
@@ -50,6 +50,10 @@ Res(oo, vs) == [o |-> oo, v |-> vs]
 
 NewPer(start) == [start |-> start, last |-> 0, dl |-> {}]
 
+(* a request of the client that asks for resource x itself is outstanding (finding KF-W concerns only these; *)
+(* the resource of a call / auth / new answer is not known before the answer)                                   *)
+PendOn(cl, x) == \E i \in DOMAIN cl.pend : (cl.pend[i].m \in {"subscribe", "get"} /\ cl.pend[i].rid = x) \/ cl.pend[i].m \in {"call", "auth", "new"}
+
 (* after a message: keep only retained resources; open/close holding periods *)
 Collect(cl, res2, direct2) ==
     LET H2 == Held(direct2, res2)
@@ -57,7 +61,7 @@ Collect(cl, res2, direct2) ==
         per2 == [r \in H2 |-> IF r \in DOMAIN cl.per /\ r \in oldH THEN cl.per[r] ELSE NewPer(l)]
     IN [cl EXCEPT !.res = RestrictTo(res2, H2), !.direct = direct2, !.exempt = cl.exempt \cap H2,
                   !.per = per2, !.stale = cl.stale \cap H2,
-                  !.dropped = [x \in oldH \ H2 |-> l] @@ [x \in DOMAIN @ \ H2 |-> @[x]]]
+                  !.dropped = [x \in {y \in oldH \ H2 : PendOn(cl, y)} |-> l] @@ [x \in DOMAIN @ \ H2 |-> @[x]]]
 
 Dangling(res2, direct2) == {r \in Held(direct2, res2) : r \notin DOMAIN res2}
 
@@ -330,7 +334,7 @@ TrigLine(cl, rid) ==
              cand == {t \in SeqToSet(Get(o.ctrig, NameOf(cl, rid), <<>>)) : t > cons}
          IN IF cand = {} THEN 0 ELSE CHOOSE t \in cand : \A u \in cand : t <= u
 
-H_note(r) ==
+H_note0(r) ==
     CASE r.kind = "unsend" /\ r.c \in DOMAIN o.conns ->
             Res(SetConn(o, r.c, [o.conns[r.c] EXCEPT !.unsent = @ \cup {r.rid}, !.stale = @ \cup {r.rid}, !.taintU = TRUE]), {})
       [] r.kind = "dispose" /\ r.c \in DOMAIN o.conns ->
@@ -389,6 +393,15 @@ H_note(r) ==
             LET st == CEStep(Get(o.ce, r.n, CENew), r)
             IN Res([o EXCEPT !.ce = Put(@, r.n, st.x)], {V("C09", "cache entry " \o Short(r.n) \o ": " \o m, "") : m \in st.errs})
       [] OTHER -> Res(o, {})
+
+(* C03 / C06: every step of a subscription's event queue follows SubQueueOps *)
+H_note(r) ==
+    LET b == H_note0(r)
+    IN IF r.kind \in SQTNotes /\ "sp" \in DOMAIN r /\ ~o.hadStop /\ o.stop.l = 0
+       THEN LET st == SQTStep(Get(o.sq, r.sp, [x |-> SQTNew]).x, r)
+            IN Res([b.o EXCEPT !.sq = Put(@, r.sp, [x |-> st.x, c |-> r.c, rid |-> r.rid])],
+                   b.v \cup {V(e.p, "subscription " \o Short(r.rid) \o " of " \o r.c \o ": " \o e.m, "") : e \in st.errs})
+       ELSE b
 
 -----------------------------------------------------------------------------
 H_msub(r) ==
@@ -652,6 +665,7 @@ H_quiescent(r) ==
     IN Res([o1 EXCEPT !.resetObl = {}, !.qev = <<>>],
            UNION {C01Viol(c, r) \cup C07Viol(c) \cup C08Viol(c, r) \cup C03EndViol(c) \cup C06EndViol(c, r) \cup C06TokViol(c, r) : c \in live}
            \cup C09QViol(r) \cup C11Viol(r) \cup C19QViol
+           \cup (IF o.hadStop THEN {} ELSE UNION {{V(e.p, "subscription " \o Short(o.sq[sp].rid) \o " of " \o o.sq[sp].c \o ": " \o e.m, "") : e \in SQTQuiescent(o.sq[sp].x)} : sp \in DOMAIN o.sq})
            \cup (IF o.hadStop THEN {} ELSE UNION {{V("C09", "cache entry " \o Short(n) \o ": " \o m, "") : m \in CEQuiescent(o.ce[n])} : n \in DOMAIN o.ce})
            \cup UNION {{V("C13", "no query request for cached query " \o k \o " on query event " \o sj, "")
                         : k \in {x \in o.qev[sj].must \ o.qev[sj].got : QSubscribed(x) /\ AnnOf(o.ann, x).st = "ld"}} : sj \in DOMAIN o.qev}
